@@ -118,6 +118,13 @@ class Obj:
     self.__dict__.update(kw)
 
 
+class Struct(Obj):
+  """Record whose arithmetic is field-wise (tree_math.struct semantics, A4)."""
+
+  def fields(self):
+    return [k for k in self.__dict__ if not k.startswith('_')]
+
+
 class Env:
   def __init__(self, parent=None, globs=None):
     self.vars = {}
@@ -175,7 +182,20 @@ def to_z3(x, like=None):
   raise Unsupported(f'cannot convert {type(x).__name__} to a term')
 
 
-def _coerce_pair(a, b):
+def _b2n(x):
+  """Python/numpy semantics: a boolean used in arithmetic is 0/1."""
+  if is_sym(x) and z3.is_bool(x):
+    return z3.If(x, z3.IntVal(1), z3.IntVal(0))
+  return x
+
+
+def _coerce_pair(a, b, arith=False):
+  if arith:
+    a, b = _b2n(a), _b2n(b)
+    if isinstance(a, bool):
+      a = int(a)
+    if isinstance(b, bool):
+      b = int(b)
   a_, b_ = (to_z3(a, like=b if is_sym(b) else None), to_z3(b, like=a if is_sym(a) else None))
   if z3.is_int(a_) and z3.is_real(b_):
     a_ = z3.ToReal(a_)
@@ -239,6 +259,7 @@ class Engine:
       self.pos = 0
       self.pc = []
       self.inputs = {}
+      self.elem_args = {}
       self._fresh = itertools.count()
       self.solver = z3.Solver()
       self.solver.set('timeout', 5000)
@@ -1053,6 +1074,14 @@ class Engine:
 
   def binop(self, op, a, b):
     t = type(op)
+    if isinstance(a, Struct) or isinstance(b, Struct):
+      ref = a if isinstance(a, Struct) else b
+      out = Struct()
+      for f in ref.fields():
+        fa = getattr(a, f) if isinstance(a, Struct) else a
+        fb = getattr(b, f) if isinstance(b, Struct) else b
+        setattr(out, f, self.binop(op, fa, fb))
+      return out
     if not is_sym(a) and not is_sym(b):
       if isinstance(a, SymSeq) or isinstance(b, SymSeq):
         h = self.libspec.get(('binop', 'SymSeq', t.__name__))
@@ -1101,7 +1130,9 @@ class Engine:
       if t is ast.Add:
         return z3.Concat(to_z3(a), to_z3(b))
       raise Unsupported('string operator')
-    a_, b_ = _coerce_pair(a, b)
+    a_, b_ = _coerce_pair(a, b, arith=True)
+    elementwise = getattr(self, 'elementwise', False)
+    zero_div = 'NonFinite' if elementwise else 'ZeroDivisionError'   # numpy: x/0 is inf/nan, not an exception
     if t is ast.Add:
       return a_ + b_
     if t is ast.Sub:
@@ -1111,23 +1142,25 @@ class Engine:
     if t is ast.Div:
       ar, br = _real(a_), _real(b_)
       if self.truth(br == 0):
-        raise PathRaise('ZeroDivisionError')
+        raise PathRaise(zero_div)
       return ar / br
     if t is ast.FloorDiv:
+      if self.truth(b_ == 0):
+        raise PathRaise(zero_div)
       if z3.is_int(a_) and z3.is_int(b_):
-        if self.truth(b_ == 0):
-          raise PathRaise('ZeroDivisionError')
         return _floordiv(a_, b_)
-      raise Unsupported('real floor division')
+      # real floor division: floor(a / b), as a real
+      return z3.ToReal(z3.ToInt(_real(a_) / _real(b_)))
     if t is ast.Mod:
+      if self.truth(b_ == 0):
+        raise PathRaise(zero_div)
       if z3.is_int(a_) and z3.is_int(b_):
-        if self.truth(b_ == 0):
-          raise PathRaise('ZeroDivisionError')
         bs = z3.simplify(b_)
         if z3.is_int_value(bs) and bs.as_long() > 0:
           return a_ % b_
         return a_ - b_ * _floordiv(a_, b_)
-      raise Unsupported('real modulo')
+      ar, br = _real(a_), _real(b_)
+      return ar - br * z3.ToReal(z3.ToInt(ar / br))      # Python: a - b*floor(a/b)
     if t is ast.Pow:
       bs = z3.simplify(b_)
       if z3.is_int_value(bs) and 0 <= bs.as_long() <= 8:
@@ -1135,6 +1168,9 @@ class Engine:
         for _ in range(bs.as_long()):
           r = r * a_
         return r
+      if elementwise:
+        from vlib.pyvc import elem
+        return elem.pow_(self, a_, b_)
       raise Unsupported('symbolic power')
     raise Unsupported(f'operator {t.__name__}')
 
